@@ -20,6 +20,8 @@ structure Env (α : Type) where
   label : α → String
   /-- `round(x, ndigits)` -/
   roundTo : α → Nat → α
+  /-- `math.log2` -/
+  log2 : α → α
 
 /-- Box–Muller on doubles, exactly as `_random_normal` computes it (for `sd = 1`). -/
 def boxMuller (seed : UInt64) : Float :=
@@ -29,7 +31,7 @@ def boxMuller (seed : UInt64) : Float :=
   let u2 := Float.ofNat ((seed >>> 32) &&& 0x7FFFFFFF).toNat / 2147483647.0
   Float.sqrt (-2.0 * Float.log u1) * Float.sin (2.0 * 3.141592653589793 * u2)
 
-def realEnv : Env Float := { sha8 := Sha256.first8LE, blake8 := Blake2b.digest8LE, z := boxMuller, label := pyRepr, roundTo := pyRound }
+def realEnv : Env Float := { sha8 := Sha256.first8LE, blake8 := Blake2b.digest8LE, z := boxMuller, label := pyRepr, roundTo := pyRound, log2 := Float.log2 }
 
 structure FlatInterval where
   lower : Int
